@@ -41,6 +41,12 @@ impl TextIndex {
         };
         (line, raw - self.line_start[line])
     }
+    /// Text of line `l` (without its line break).
+    pub fn line_text(&self, l: usize) -> String {
+        let a = self.line_start.get(l).copied().unwrap_or(self.chars.len());
+        let b = self.line_start.get(l + 1).map_or(self.chars.len(), |x| x - 1);
+        self.chars[a.min(b)..b].iter().filter(|c| **c != '\r').collect()
+    }
     pub fn slice(&self, a: usize, b: usize) -> String {
         if a > b || b >= self.chars.len() {
             return String::new();
@@ -191,6 +197,36 @@ fn check_nodes_and_diags(c: &Case, files: &[(String, String)], layout: &str, acc
             acc.violation(format!("C09|node|{why}|{feat}"), format!("node `{n}` has range {:?}: {why}", sp), replay.clone());
             continue;
         }
+        // a statement starts at its first token: behind the indentation and the labels of its line
+        // (independent of what the node says its text is)
+        if layout != "two-per-line" && !matches!(n, riscv_analysis::parser::ParserNode::Label(_)) {
+            let line: String = ti.line_text(sp.start.line);
+            let cs: Vec<char> = line.chars().collect();
+            let mut i = 0;
+            loop {
+                while i < cs.len() && cs[i].is_whitespace() {
+                    i += 1;
+                }
+                // a label in front of the statement?
+                let mut j = i;
+                while j < cs.len() && (cs[j].is_alphanumeric() || cs[j] == '_' || cs[j] == '-') {
+                    j += 1;
+                }
+                if j > i && j < cs.len() && cs[j] == ':' {
+                    i = j + 1;
+                } else {
+                    break;
+                }
+            }
+            if i < cs.len() && cs[i] != '#' && sp.start.col != i {
+                acc.violation(
+                    format!("C09|node|does-not-start-at-its-first-token|{feat}"),
+                    format!("node `{n}` starts at column {} of line {}, its statement starts at column {i} (`{}`)", sp.start.col, sp.start.line + 1, line.trim()),
+                    replay.clone(),
+                );
+                continue;
+            }
+        }
         // the statement's own tokens, re-lexed from the slice, must render to the node's text
         let sl = ti.slice(sp.start.raw, sp.end.raw);
         let relexed: Vec<String> = Lexer::new(sl.clone(), uuid::Uuid::new_v4()).flatten().map(|t| t.raw_text()).collect();
@@ -340,6 +376,22 @@ pub fn run(ctx: &Ctx) -> i32 {
                 }
                 check_nodes_and_diags(&c, &files, layout, &mut acc, &replay);
                 acc.nontrivial.insert(hash64(&format!("{layout}{text}")));
+                if layout == "plain" {
+                    // directed: short statements as the very first characters of a file (the base file and
+                    // an included one): the first token ends at offset 0..2, where "no position yet" lives
+                    let first = *rng.pick(&["j tail", "b tail", "j  tail", "jr ra", "la t0, tail", "li t0, 1", "mv t1, t0", "ret", "jal tail", "x: j tail", "nop"]);
+                    let base = format!("{first}\nmain:\n    li a0, 1\n.include \"tail.s\"\n");
+                    let tail = format!("{first}\n    li t6, 5\ntail:\n    li a7, 10\n    ecall\n    li t5, 3\n");
+                    let files2 = vec![(FILE.to_string(), base), ("tail.s".to_string(), tail)];
+                    let dummy = Case { g: g.clone(), printed: crate::print::Printed { text: String::new(), ins: vec![], line_to_ins: Default::default(), line_of_src: vec![], label_defs: Default::default() } };
+                    let replay2 = json!({"layout": "statement-at-offset-0", "files": files2});
+                    acc.evaluations += 1;
+                    acc.note("layouts", "statement-at-offset-0");
+                    for (_, t) in &files2 {
+                        check_tokens(t, "statement-at-offset-0", &mut acc, &replay2);
+                    }
+                    check_nodes_and_diags(&dummy, &files2, "statement-at-offset-0", &mut acc, &replay2);
+                }
                 if k == 0 && shard == 0 && layout == "styled" {
                     let ex: Vec<&str> = text.lines().skip(9).take(5).collect();
                     acc.sample(json!({"layout": layout, "excerpt": ex}));
